@@ -89,7 +89,7 @@ def handlers : List (String × (List Sexp → String)) := [
       let [x] := a | none
       let s ← parseStmt x
       pure (toString (Sexp.list [Sexp.ofBool (FragS s), Sexp.ofBool (SpecOkS s), Sexp.ofBool (uniqueAnnos (analyze s).annos),
-        Sexp.ofBool (allDeclsDisjoint s)])))
+        Sexp.ofBool (allDeclsDisjoint s), Sexp.ofBool (FragSC s), Sexp.ofBool (FragSD s)])))
 ]
 
 end Malt.Drv.C08
